@@ -14,7 +14,52 @@ variable, `flip_variable`.  Returns a description with the structural facts the 
 """
 from fractions import Fraction
 
-from harness.props.energy_common import LABELS, q8, fl, domain, perm_of
+import os
+
+from harness.props.energy_common import LABELS, HEADER, Recipe, q8, fl, domain, perm_of
+
+
+class LoggedRecipe(Recipe):
+    """a recipe that writes every line to `fd` BEFORE executing it (so that a line that aborts the interpreter is known)"""
+    fd = None
+
+    def do(self, line):
+        if LoggedRecipe.fd is not None:
+            os.write(LoggedRecipe.fd, (line + '\n').encode())
+        Recipe.do(self, line)
+
+
+def canary(fn):
+    """run `fn()` in a forked copy of this process first (same generator state, results discarded).  Returns None when the copy
+    finished, else (signal number, the recipe lines it had logged — the last one is the call that killed the interpreter).
+    An assertion of the code under test (`-UNDEBUG` build) or a segfault must not take the harness down with it."""
+    rfd, wfd = os.pipe()
+    pid = os.fork()
+    if pid == 0:
+        code = 0
+        try:
+            os.close(rfd)
+            LoggedRecipe.fd = wfd
+            devnull = os.open(os.devnull, os.O_WRONLY)
+            os.dup2(devnull, 1)
+            os.dup2(devnull, 2)
+            fn()
+        except BaseException:  # noqa  (a Python-level error is reported by the in-process run)
+            code = 3
+        finally:
+            os._exit(code)
+    os.close(wfd)
+    chunks = []
+    while True:
+        b = os.read(rfd, 65536)
+        if not b:
+            break
+        chunks.append(b)
+    os.close(rfd)
+    _, status = os.waitpid(pid, 0)
+    if os.WIFSIGNALED(status):
+        return os.WTERMSIG(status), b''.join(chunks).decode().splitlines()
+    return None
 
 
 def F(x):
@@ -208,8 +253,11 @@ def succ_before(R, st, v):
     return out
 
 
-def step(r, R, st):
-    """one operation on the CQM + the references; returns (op name, input-class facts) or None when nothing applies"""
+def step(r, R, st, before=None):
+    """one operation on the CQM + the references; returns (op name, input-class facts) or None when nothing applies.
+    `before(kind, v, a, target)` is called right before a single-variable removal is executed (kind 'R' parent
+    remove_variable, 'F' parent fix_variable with value a, 'V' the view `target`'s own remove_variable)."""
+    before = before or (lambda *a: None)
     c = R['c']
     mv = list(c.variables)
     st['vts'] = {v: c.vartype(v).name for v in mv}     # generation only (which values / operations are admissible)
@@ -224,6 +272,7 @@ def step(r, R, st):
         v = r.choice(mv)
         a = r.choice(domain(vts[v]))
         facts['successor listed before the removed variable'] = bool(succ_before(R, st, v))
+        before('F', v, a, None)
         R.do(f'c.fix_variable({v!r}, {fl(a)})')
         for ref in refs.values():
             ref.fix(v, a)
@@ -243,6 +292,7 @@ def step(r, R, st):
     elif op == 'remove_variable':
         v = r.choice(mv)
         facts['successor listed before the removed variable'] = bool(succ_before(R, st, v))
+        before('R', v, None, None)
         R.do(f'c.remove_variable({v!r})')
         for ref in refs.values():
             ref.remove(v)
@@ -266,6 +316,7 @@ def step(r, R, st):
         if not ev:
             return None
         v = r.choice(ev)
+        before('V', v, None, t)
         R.do(f'{t}.remove_variable({v!r})')
         refs[t].remove(v)
     elif op == 'expr.set_linear':
